@@ -18,10 +18,13 @@ void vf_observe(uint64_t);
 extern "C" __attribute__((used, noinline)) void vf_virtual_stub(void*) { __CPROVER_assert(false, "virtual destructor or out-of-scope virtual function invoked"); __CPROVER_assume(false); }
 extern "C" __attribute__((used, noinline)) void vf_virtual_noop(void*) {}
 #define VF_ASSUME(x) __CPROVER_assume(x)
-#define VF_ASSERT(x, msg) __CPROVER_assert((x), msg)
+// nomerge: the optimiser must not sink two assertion calls into one with a phi of the messages
+#define VF_ASSERT(x, msg) do { [[clang::nomerge]] __CPROVER_assert((x), msg); } while (0)
 // Reachability witness: this assertion is EXPECTED to fail.  A query whose
 // witness is not violated is vacuous and is reported as a broken check.
-#define VF_WITNESS() __CPROVER_assert(false, "VF-WITNESS end of harness reachable")
+#define VF_WITNESS() do { [[clang::nomerge]] __CPROVER_assert(false, "VF-WITNESS end of harness reachable"); } while (0)
+// additional reachability witnesses for secondary paths (also expected to fail)
+#define VF_WITNESS_ALSO(what) do { [[clang::nomerge]] __CPROVER_assert(false, "VF-WITNESS " what); } while (0)
 // Known-finding exclusion: the driver passes -DVF_EXCLUDE_<tag>=1 for the
 // second, narrowed query once a listed finding has been recognised.
 #define VF_STOP() do { __CPROVER_assume(false); } while (0)
